@@ -205,7 +205,7 @@ class PjRpcMocker:
         else:
             matches = self._matches[endpoint]
 
-        if not matches and method_name:
+        if not matches and method_name is not None:
             self._matches[endpoint].pop((version, method_name), None)
         if not self._matches[endpoint]:
             self._matches.pop(endpoint)
